@@ -19,8 +19,8 @@ RULE = (
     "header fields: LLIDs, group flag, SAP, DPF, F, S, N(S), FSN).  'lengths': enumeration over the 6 (rate, mode) slices of "
     "every payload length that needs 1..8 blocks plus cap(k)-1, cap(k), cap(k)+1 for k in {1..12, 31..33, 62..65, 125..127} "
     "(cap(k) = k*per-4 = largest payload of k blocks; boundary lengths above 1500 octets are kept for rates 3/4 and 1) and "
-    "length 1500, each with 0, 1, 2 and 16 preambles (2 only up to 40 blocks); thorough: additionally every length 0..1500, "
-    "with 0, 1 and 16 preambles; payload bytes rotate hash-expanded / all 00 / all FF, other fields rotate.  "
+    "length 1500, each with 0, 1, 2 and 16 preambles (quick: 2 only up to 40 blocks); thorough: additionally every length "
+    "0..1500; payload bytes rotate hash-expanded / all 00 / all FF, other fields rotate.  "
     "'crc_extremes': payloads solved by GF(2) linearity (dmr_ref.force_crc32 / force_crc9_field) so that the packet CRC-32 is "
     "exactly 00000000, FFFFFFFF, 00000001 or 80000000 (11 lengths per slice incl. 5, 6, exact fits, pad > 0, 30 blocks) or "
     "that the CRC-9 field of one intermediate confirmed block is 000 or 1FF (2, 3, 6 blocks, every intermediate block in "
@@ -322,7 +322,7 @@ def _run_cases(ctx: Ctx, sub: SubCheck, items, n_chunks=96):
 
 def drv_lengths(ctx: Ctx, sub: SubCheck):
     rng = ctx.rng("lengths")
-    pre_counts = ctx.pick([0, 1, 2, 16], [0, 1, 16])
+    pre_counts = [0, 1, 2, 16]
     items = []
     n_excl = 0
     for si, (rate, conf) in enumerate(SLICES):
@@ -330,8 +330,8 @@ def drv_lengths(ctx: Ctx, sub: SubCheck):
         n_excl += excl
         for j, l in enumerate(ls):
             for pi, n_pre in enumerate(pre_counts):
-                if n_pre == 2 and dmr_ref.fragment(l, rate, conf)[0] > 40:
-                    continue  # budget: the expensive long transmissions run with 0, 1 and 16 preambles only
+                if ctx.quick and n_pre == 2 and dmr_ref.fragment(l, rate, conf)[0] > 40:
+                    continue  # quick budget: the expensive long transmissions run with 0, 1 and 16 preambles only
                 q = j + si + pi
                 fillsel = q % 4
                 payload = {"prng": rng.getrandbits(32), "len": l} if fillsel < 2 else {"fill": 0x00 if fillsel == 2 else 0xFF, "len": l}
@@ -344,7 +344,7 @@ def drv_lengths(ctx: Ctx, sub: SubCheck):
     ctx.tally.excluded["length_needs_more_than_127_blocks_(7-bit_BTF)"] += n_excl
     ctx.tally.extra["lengths_preamble_counts"] = pre_counts
     if not ctx.quick:
-        ctx.tally.notes.append("lengths: every payload length 0..1500 that fits the header format plus the block-count boundary lengths, for each of the 6 (rate, mode) slices x preamble counts {0,1,16} (payload bytes and the other fields rotate)")
+        ctx.tally.notes.append("lengths: every payload length 0..1500 that fits the header format plus the block-count boundary lengths, for each of the 6 (rate, mode) slices x preamble counts {0,1,2,16} (payload bytes and the other fields rotate)")
 
 
 # ---------------------------------------------------------------------------------------------- directed: check-value extremes
@@ -462,7 +462,7 @@ def drv_random(ctx: Ctx, sub: SubCheck):
 
     def hyp(shard, t: Tally):
         rc = SLICES[shard % len(SLICES)]
-        ctx.hypothesis(sub.name, build(rc), oracle, ctx.pick(40, 300), tally=t, shard=shard, record=rec)
+        ctx.hypothesis(sub.name, build(rc), oracle, ctx.pick(40, 600), tally=t, shard=shard, record=rec)
 
     ctx.shards(hyp, list(range(ctx.pick(30, 48))))
 
@@ -515,7 +515,7 @@ def drv_short_boundary(ctx: Ctx, sub: SubCheck):
 
 
 SUBCHECKS = [
-    SubCheck("lengths", oracle, drv_lengths, "enumerated payload lengths (all lengths of 1..8 blocks, boundary triples for 26 block counts up to 127; thorough: every length 0..1500) x 3 rates x 2 modes x preamble counts {0,1,2,16} / {0,1,16} through generator -> bytes -> receiver"),
+    SubCheck("lengths", oracle, drv_lengths, "enumerated payload lengths (all lengths of 1..8 blocks, boundary triples for 26 block counts up to 127; thorough: every length 0..1500) x 3 rates x 2 modes x preamble counts {0,1,2,16} through generator -> bytes -> receiver"),
     SubCheck("crc_extremes", oracle, drv_crc_extremes, "directed: payloads constructed so that the packet CRC-32 is 00000000 / FFFFFFFF / 00000001 / 80000000 or an intermediate confirmed block's CRC-9 field is 000 / 1FF"),
     SubCheck("header_fields", oracle, drv_header_fields, "directed: every header field over its complete range (SAP, FSN, N(S), F, S, group, DPF vs A, colour code, timeslot, LLID extremes, preambles 0..16) on a fixed 50-octet payload x 6 slices"),
     SubCheck("short_boundary_payloads", oracle, drv_short_boundary, "directed: SAP UDP/IP compression, payload lengths 0..12, first six octets from {00,01,7F,80,81,FF} on two positions at a time ((3,4) complete) x 3 rates x 2 modes"),
